@@ -112,9 +112,19 @@ def eval_grammar(res, g, entries, inputs, nontrivial, tag='', pyglobals=None, ex
                     res.sample({'rule': key, 'input': repr(t), 'expected': list(exp)[:3],
                                 'events': dict(it.events)})
             if bad:
-                gg = g if keep_whole_grammar else None
-                res.mismatch(make_case(g, name, t) if gg is None else
-                             {'g': peg.g_to_dict(g), 'entry': name, 'text': t})
+                case = make_case(g, name, t)
+                if keep_whole_grammar:
+                    case = {'g': peg.g_to_dict(g), 'entry': name, 'text': t}
+                elif len(res.mismatches) < 40:
+                    # the reduced grammar (rules reachable from the entry) must still show the mismatch;
+                    # otherwise rules interfere across the module and the whole grammar is the case
+                    try:
+                        if replay_case(case, pyglobals=pyglobals, extra_check=extra_check, style=style) is None:
+                            case = {'g': peg.g_to_dict(g), 'entry': name, 'text': t}
+                            res.hist['mismatch_needs_whole_grammar'] += 1
+                    except Exception:
+                        pass
+                res.mismatch(case)
                 if got[0] == 'HANG':
                     hangs += 1
                     res.hist['hang'] += 1
